@@ -142,5 +142,12 @@ def run(ctx):
         c13.run(pr)
         ctx.oblige("C01|lossy-semantics", not pr.failed,
                    "a documented lossy decoder alters or drops values it should deliver whole: %s" % "; ".join("%s: %s" % (k, m[:160]) for k, m in pr.failed[:2]), cfg=cfg)
+        # "whose members respect the declared size limits": the capacities and widths a well-formed request may use are the
+        # specification's (C12's limits table is a necessary condition: a smaller capacity rejects well-formed requests)
+        from . import c12
+        pr12 = Probe(facts={cfg: F})
+        c12.run(pr12)
+        lim = [(k, m) for k, m in pr12.failed if k.startswith(("C12|cap|", "C12|int|"))]
+        ctx.oblige("C01|declared-limits", not lim, "a request member cannot hold what the specification allows: %s" % "; ".join("%s: %s" % (k, m[:160]) for k, m in lim[:2]), cfg=cfg)
         n = c11.check_dispatch(ctx, F, cfg, cmds, P="C01")
         ctx.floor("command switch result sites", n, 3, cfg=cfg)
